@@ -67,8 +67,9 @@ def gen_task(task):
     limit = task[3] if len(task) > 3 else 300
     task = tuple(task[:3])
     t0 = time.time()
+    eng = None
+    import signal
     try:
-        import signal
 
         def _alarm(sig, frm):
             raise OutOfSubset("verification-condition generation exceeded its time limit of %ds (path explosion)" % limit)
@@ -98,11 +99,13 @@ def gen_task(task):
                 "functions": list(eng.repo.used.values()), "notes": sorted(eng.notes),
                 "gen_s": time.time() - t0, "feas_checks": eng.stats["feas_checks"]}
     except OutOfSubset as e:
+        signal.alarm(0)
         return {"task": task, "ok": False, "error": "out-of-subset: %s" % e, "gen_s": time.time() - t0,
-                "trace": traceback.format_exc()[-1500:]}
+                "trace": traceback.format_exc()[-1500:], "functions": list(eng.repo.used.values()) if eng else []}
     except Exception as e:
+        signal.alarm(0)
         return {"task": task, "ok": False, "error": "%s: %s" % (type(e).__name__, e), "gen_s": time.time() - t0,
-                "trace": traceback.format_exc()[-2500:]}
+                "trace": traceback.format_exc()[-2500:], "functions": list(eng.repo.used.values()) if eng else []}
 
 
 def solve_all(obs, timeout_s, both, jobs, seed):
